@@ -243,6 +243,7 @@ struct Seq<'a> {
     verbose: bool,
     damaged: bool,             // any damage / oversize item / capacity change so far (C13 file monitor is then off)
     tainted: BTreeSet<usize>,  // keys hit by a rename/move that preserves (len, crc)  (F12)
+    tainted_garbage: BTreeSet<usize>, // keys that got a planted file with a consistent name but a structurally INVALID header: no excuse for a hit
     planted_bad_dirs: Vec<String>,
     evictions: u64,
     hits: u64,
@@ -295,7 +296,7 @@ impl<'a> Seq<'a> {
         let res = match r {
             Err(_) => {
                 // (the known finding rename-wider-range-panic is the PUT over a renamed entry; a panicking get is a different call site)
-                let key = if self.tainted.contains(&ki) { "get-panic-on-renamed-entry" } else { "panic" };
+                let key = if self.tainted.contains(&ki) { "get-panic-on-renamed-entry" } else if self.tainted_garbage.contains(&ki) { "get-panic-on-planted-invalid-file" } else { "panic" };
                 ctx.fail("C12", key, format!("get(key {ki}, [{s},{e})) panicked"), self.replay(ctx, seq));
                 ctx.stat("get_panic");
                 "panic".to_string()
@@ -311,7 +312,7 @@ impl<'a> Seq<'a> {
                     data == cr.data.as_ref() && offs.as_slice() == cr.offsets.as_ref() && cr.range == ChunkRange { start: s, end: e }
                 };
                 if !good {
-                    let key = if self.tainted.contains(&ki) { "rename-preserving-len-crc" } else { "hit-wrong-data" };
+                    let key = if self.tainted.contains(&ki) { "rename-preserving-len-crc" } else if self.tainted_garbage.contains(&ki) { "hit-from-planted-invalid-file" } else { "hit-wrong-data" };
                     ctx.fail("C12", key, format!("get(key {ki}, [{s},{e})) is a hit but not the slice of what was put for that key"), self.replay(ctx, seq));
                     ctx.stat("get_hit_wrong");
                 }
@@ -584,14 +585,30 @@ impl<'a> Seq<'a> {
                 let dirs: Vec<String> = walk_order(&self.root).into_iter().filter(|(p, d)| *d && p.matches('/').count() == 1).map(|(p, _)| p).collect();
                 if dirs.is_empty() { return; }
                 let parent = rng.pick(&dirs).clone();
-                let n = rng.range(0, 40) as usize;
-                let mut content = rng.bytes(n);
-                if content.len() >= 4 { content[1] = 0; content[2] = 0; content[3] = 0; content[0] %= 12; }
+                let mut content;
+                if rng.chance(1, 2) {
+                    // an almost valid file: count, indices starting at 0 and increasing except for one dip / repeat, then data
+                    let k = rng.range(2, 6) as usize;
+                    let mut idx: Vec<u32> = vec![0]; for _ in 0..k { let l = *idx.last().unwrap(); idx.push(l + rng.range(1, 60) as u32); }
+                    let d = rng.range(1, k as u64) as usize;
+                    idx[d] = if rng.chance(1, 2) { idx[d - 1] } else { idx[d - 1].saturating_sub(rng.range(0, 5) as u32) };
+                    content = Vec::new(); content.extend_from_slice(&(idx.len() as u32).to_le_bytes()); for i in &idx { content.extend_from_slice(&i.to_le_bytes()); }
+                    let dl = *idx.iter().max().unwrap() as usize + rng.below(8) as usize; content.extend_from_slice(&rng.bytes(dl));
+                } else {
+                    let n = rng.range(0, 40) as usize;
+                    content = rng.bytes(n);
+                    if content.len() >= 4 { content[1] = 0; content[2] = 0; content[3] = 0; content[0] %= 12; }
+                }
                 let s = rng.below(4) as u32;
                 let name = item_name(s, s + rng.range(1, 4) as u32, content.len() as u64, crc32fast::hash(&content));
-                // never a structurally valid header: otherwise this is the planted-valid-entry case of F12
-                if let Some(kd) = parent.split('/').nth(1) { if let Some(ti) = self.env.xorbs.iter().position(|x| key_dir_name(&x.key) == kd) { self.tainted.insert(ti); } }
-                ctx.stat("damage_planted_consistent_garbage");
+                // is the header structurally valid (count, first index 0, strictly increasing, all inside the file)?  Then this is the
+                // planted-valid-entry case of the known finding F12; otherwise nothing excuses a hit from this file
+                let valid_header = content.len() >= 4 && {
+                    let n = u32::from_le_bytes(content[0..4].try_into().unwrap()) as usize;
+                    4 + 4 * n <= content.len() && { let idx: Vec<u32> = (0..n).map(|i| u32::from_le_bytes(content[4 + 4 * i..8 + 4 * i].try_into().unwrap())).collect(); idx.first().map_or(true, |f| *f == 0) && idx.windows(2).all(|w| w[0] < w[1]) }
+                };
+                if let Some(kd) = parent.split('/').nth(1) { if let Some(ti) = self.env.xorbs.iter().position(|x| key_dir_name(&x.key) == kd) { if valid_header { self.tainted.insert(ti); } else { self.tainted_garbage.insert(ti); } } }
+                ctx.stat(if valid_header { "damage_planted_consistent_valid_header" } else { "damage_planted_consistent_garbage" });
                 self.write_file(ctx, &format!("{parent}/{name}"), &content);
             }
             _ => { ctx.stat("damage_none"); }
@@ -657,7 +674,7 @@ pub fn run(ctx: &mut Ctx) {
         let max_item: u64 = env.xorbs.iter().map(|x| x.data.len() as u64 + 4 * (x.bounds.len() as u64 + 1)).max().unwrap();
         let cap = match rng.below(4) { 0 => max_item / 2 + 1, 1 => max_item + rng.below(max_item), 2 => 2 * max_item + rng.below(2 * max_item), _ => 6 * max_item };
         let mut sq = Seq { env: &env, root: root.clone(), cap, cache: None, toks: vec![], answers: vec![], verbose, damaged: false,
-                           tainted: Default::default(), planted_bad_dirs: vec![], evictions: 0, hits: 0 };
+                           tainted: Default::default(), tainted_garbage: Default::default(), planted_bad_dirs: vec![], evictions: 0, hits: 0 };
         sq.reopen(ctx, seq, cap);
         let with_damage = seq % 3 != 0;
         for _ in 0..nops {
